@@ -209,6 +209,16 @@ class BuildResult:
         self.ok, self.log, self.failed = ok, log, failed
 
 
+@contextlib.contextmanager
+def generated_lock():
+    """exclusive lock over 'regenerate Generated/*.lean, build, audit' (re-entrant use is not needed: lake_build takes a
+    different lock file)"""
+    os.makedirs(os.path.join(LEAN, ".lake"), exist_ok=True)
+    with open(os.path.join(LEAN, ".lake", "generated.lock"), "w") as lk:
+        fcntl.flock(lk, fcntl.LOCK_EX)
+        yield
+
+
 def lake_build(targets, timeout=3000):
     """`lake build <targets>` under a file lock; returns BuildResult (failed = module names that did not build)"""
     os.makedirs(os.path.join(LEAN, ".lake"), exist_ok=True)
